@@ -632,3 +632,207 @@ Theorem C09_decode_encode_zlib_stored_multipass : forall fp o sizes inp bs,
     /\ decode bs (zlib_inflate_at bs) = Some (content_of fp o sizes ids outs sum ubuf kept).
 Proof. exact C09_decode_encode_zlib_stored_multipass. Qed.
 Print Assumptions C09_decode_encode_zlib_stored_multipass.
+
+(* ---------------------------------------------------------------- bigBed, COMPRESSED files
+   Model/BigBedWriteZ.v is the bigBed writer model with the block compressor as a parameter (data sections and zoom
+   sections through [compress] when options.compress is set; uncompress_buf_size as bigbedwrite.rs / bbiwrite.rs compute
+   it; write_zooms' skipping rules and the two-pass automatic level selection look at COMPRESSED sizes).  The theorems
+   below are the bigBed twins of C09_model_uncompressed / C09_decode_encode_compressed / C09_buf_size /
+   C09_decode_encode_zlib_stored.  Hypotheses on the pair: [compress] never returns the empty list, and the inflate
+   oracle inverts it on the byte ranges of the file that hold a compressed block ([inflate_ok]).  New field-width
+   hypothesis [ubuf_fits_dec] (only when options.compress is set): every data block is shorter than 2^32 bytes before
+   compression (uncompress_buf_size is a u32; a rest-of-line has no length limit) and the item count fits its u64
+   (it is no longer bounded by the file size once blocks are compressed). *)
+From BT Require Import Model.BigBedWriteZ Proofs.C09BedZFile Proofs.C09BedZWhole Proofs.C09BedZInflate.
+From BT Require Proofs.BedFileZ Proofs.BedFileZThms.
+
+(* with compression off the parametric model IS Model/BigBedWrite.v *)
+Theorem C09_bb_model_uncompressed : forall compress fp o sizes autosql input, o_compress o = false ->
+  bb_write_z compress fp o sizes autosql input = bb_write fp o sizes autosql input
+  /\ bb_write_multipass_z compress fp o sizes autosql input = bb_write_multipass fp o sizes autosql input.
+Proof. exact BedFileZ.bb_write_z_uncompressed. Qed.
+Print Assumptions C09_bb_model_uncompressed.
+
+(* every compressor with non-empty outputs, every inflate oracle inverting it on the file's blocks: same content as
+   C09_bb_decode_encode with uncompressBufSize = the largest uncompressed block (> 0, < 2^32) instead of 0 *)
+Theorem C09_bb_decode_encode_compressed : forall compress fp o sizes autosql input bs inflate,
+  bb_write_z compress fp o sizes autosql input = Ok bs -> bed_hyps o sizes input bs ->
+  Forall (fun z => z < W32) (zoom_sizes_single o) ->
+  o_sort_all o = true ->
+  (forall b, compress b <> []) -> (o_compress o = true -> inflate_ok compress bs inflate) ->
+  ubuf_fits_dec o input ->
+  exists fc ids outs kept ubuf,
+    bb_schema autosql = Ok (stored_autosql autosql, fc) /\ bb_collect o sizes input = Ok (ids, outs)
+    /\ incl kept (zoom_sizes_single o) /\ inc_from 0 kept /\ Nlen kept <= 10
+    /\ Forall (level_runs fp o outs) kept
+    /\ (ubuf = 0 <-> o_compress o = false) /\ ubuf < W32
+    /\ decode bs inflate = Some (bed_content_of_z fp o sizes input (stored_autosql autosql) fc ids outs ubuf kept).
+Proof.
+  intros compress fp o sizes autosql input bs inflate H Hh Hu Hs Hc Hi Hf.
+  exact (bb_write_z_single_decodes compress fp o sizes autosql input bs true inflate H Hh Hu (fun _ => Hs) Hc Hi Hf).
+Qed.
+Print Assumptions C09_bb_decode_encode_compressed.
+
+(* two passes: the levels are selected from the COMPRESSED data size *)
+Theorem C09_bb_decode_encode_compressed_multipass : forall compress fp o sizes autosql input bs inflate,
+  bb_write_multipass_z compress fp o sizes autosql input = Ok bs -> bed_hyps o sizes input bs ->
+  manual_u32 o ->
+  o_sort_all o = true ->
+  (forall b, compress b <> []) -> (o_compress o = true -> inflate_ok compress bs inflate) ->
+  ubuf_fits_dec o input ->
+  exists fc ids outs kept ubuf,
+    bb_schema autosql = Ok (stored_autosql autosql, fc) /\ bb_collect o sizes input = Ok (ids, outs)
+    /\ inc_from 0 kept /\ Nlen kept <= 10
+    /\ Forall (level_runs fp o outs) kept
+    /\ (ubuf = 0 <-> o_compress o = false) /\ ubuf < W32
+    /\ decode bs inflate = Some (bed_content_of_z fp o sizes input (stored_autosql autosql) fc ids outs ubuf kept).
+Proof.
+  intros compress fp o sizes autosql input bs inflate H Hh Hu Hs Hc Hi Hf.
+  exact (bb_write_z_multipass_decodes compress fp o sizes autosql input bs true inflate H Hh Hu (fun _ => Hs) Hc Hi Hf).
+Qed.
+Print Assumptions C09_bb_decode_encode_compressed_multipass.
+
+(* the lenient decoder, no order hypothesis, both writers *)
+Theorem C09_bb_decode_encode_compressed_lenient : forall compress two_pass fp o sizes autosql input bs inflate,
+  BedFileZThms.bb_write_either_z compress two_pass fp o sizes autosql input = Ok bs -> bed_hyps o sizes input bs ->
+  C08FileQuery.zoom_res_u32 two_pass o ->
+  (forall b, compress b <> []) -> (o_compress o = true -> inflate_ok compress bs inflate) ->
+  ubuf_fits_dec o input ->
+  exists sql fc ids outs kept ubuf,
+    bb_schema autosql = Ok (sql, fc) /\ bb_collect o sizes input = Ok (ids, outs)
+    /\ inc_from 0 kept /\ Nlen kept <= 10
+    /\ (ubuf = 0 <-> o_compress o = false) /\ ubuf < W32
+    /\ decode_lenient bs inflate = Some (bed_content_of_z fp o sizes input sql fc ids outs ubuf kept).
+Proof.
+  intros compress two_pass fp o sizes autosql input bs inflate H Hh Hu Hc Hi Hf.
+  assert (H' : BedFileZThms.bb_write_either_zc compress (o_compress o) two_pass fp o sizes autosql input = Ok bs)
+    by (unfold BedFileZThms.bb_write_either_zc; destruct two_pass; exact H).
+  destruct (bb_write_zc_decodes compress (o_compress o) two_pass fp o sizes autosql input bs false inflate H' Hh Hu
+              ltac:(discriminate) Hc Hi Hf) as (sql & fc & ids & outs & kept & ubuf & A & B & C & D & _ & _ & G1 & G2 & G).
+  exists sql, fc, ids, outs, kept, ubuf. auto 10.
+Qed.
+Print Assumptions C09_bb_decode_encode_compressed_lenient.
+
+(* the buffer size: for EVERY compressor (no hypothesis on it) and every input the writers accept, the header field is
+   >= the uncompressed size of every data section and of every section of every zoom level computed (single pass: also
+   the levels write_zooms then skips), 0 iff options.compress is off, and < 2^32 when the uncompressed blocks are *)
+Theorem C09_bb_buf_size : forall compress fp o sizes autosql input bs,
+  bb_write_z compress fp o sizes autosql input = Ok bs ->
+  exists sql fc ids outs data zooms ubuf nz a1 a2 a3 a4,
+    bb_schema autosql = Ok (sql, fc) /\ bb_collect o sizes input = Ok (ids, outs) /\ bb_data o outs = Ok data
+    /\ mapM (bb_zoom_level fp o outs) (zoom_sizes_single o) = Ok zooms
+    /\ has_at bs 0 (header_bytes BIGBED_MAGIC nz a1 a2 a3 fc fc ASQL_OFFSET a4 ubuf)
+    /\ blocks_bound (o_compress o) ubuf (data ++ flat_map zl_secs zooms)
+    /\ (ubuf = 0 <-> o_compress o = false)
+    /\ (o_compress o = true -> BedFileZ.blocks_fit o input -> 32 * o_ips o < W32 -> ubuf < W32).
+Proof. intros compress fp o sizes autosql input bs H. exact (bb_buf_size compress false fp o sizes autosql input bs H). Qed.
+Print Assumptions C09_bb_buf_size.
+
+(* two passes: data sections and the sections of the levels selected from the compressed data size (all are written) *)
+Theorem C09_bb_buf_size_multipass : forall compress fp o sizes autosql input bs,
+  bb_write_multipass_z compress fp o sizes autosql input = Ok bs ->
+  exists sql fc ids outs data zooms ubuf nz a1 a2 a3 a4,
+    bb_schema autosql = Ok (sql, fc) /\ bb_collect o sizes input = Ok (ids, outs) /\ bb_data o outs = Ok data
+    /\ mapM (bb_zoom_level fp o outs)
+         (zoom_sizes_two_pass o (bb_sweep fp outs) (total_zoom_counts (map chrom_out_of outs))
+            (Nlen (data_bytes (map (zsec compress (o_compress o)) data)))) = Ok zooms
+    /\ has_at bs 0 (header_bytes BIGBED_MAGIC nz a1 a2 a3 fc fc ASQL_OFFSET a4 ubuf)
+    /\ blocks_bound (o_compress o) ubuf (data ++ flat_map zl_secs zooms)
+    /\ (ubuf = 0 <-> o_compress o = false)
+    /\ (o_compress o = true -> BedFileZ.blocks_fit o input -> 32 * o_ips o < W32 -> ubuf < W32).
+Proof. intros compress fp o sizes autosql input bs H. exact (bb_buf_size compress true fp o sizes autosql input bs H). Qed.
+Print Assumptions C09_bb_buf_size_multipass.
+
+(* a sufficient condition for [blocks_fit] in terms of field sizes alone: rest-of-line at most R bytes and
+   items_per_slot * (13 + R) < 2^32 (e.g. items_per_slot <= 65535 and R <= 65000) *)
+Theorem C09_bb_blocks_fit_of_bounds : forall o input R, 1 <= o_ips o -> o_ips o * (13 + R) < W32 ->
+  Forall (fun it : bitem => Nlen (e_rest (snd it)) <= R) input -> BedFileZ.blocks_fit o input.
+Proof. exact BedFileZ.blocks_fit_of_bounds. Qed.
+Print Assumptions C09_bb_blocks_fit_of_bounds.
+
+(* REAL compressor, Coq inflater: no hypothesis on compression is left *)
+Theorem C09_bb_decode_encode_zlib_stored : forall fp o sizes autosql input bs,
+  bb_write_z zlib_store fp o sizes autosql input = Ok bs -> bed_hyps o sizes input bs ->
+  Forall (fun z => z < W32) (zoom_sizes_single o) -> o_sort_all o = true -> ubuf_fits_dec o input ->
+  exists fc ids outs kept ubuf,
+    bb_schema autosql = Ok (stored_autosql autosql, fc) /\ bb_collect o sizes input = Ok (ids, outs)
+    /\ incl kept (zoom_sizes_single o) /\ inc_from 0 kept /\ Nlen kept <= 10
+    /\ Forall (level_runs fp o outs) kept
+    /\ (ubuf = 0 <-> o_compress o = false) /\ ubuf < W32
+    /\ decode bs (zlib_inflate_at bs) = Some (bed_content_of_z fp o sizes input (stored_autosql autosql) fc ids outs ubuf kept).
+Proof. exact bb_decode_encode_zlib_stored. Qed.
+Print Assumptions C09_bb_decode_encode_zlib_stored.
+
+Theorem C09_bb_decode_encode_zlib_stored_multipass : forall fp o sizes autosql input bs,
+  bb_write_multipass_z zlib_store fp o sizes autosql input = Ok bs -> bed_hyps o sizes input bs ->
+  manual_u32 o -> o_sort_all o = true -> ubuf_fits_dec o input ->
+  exists fc ids outs kept ubuf,
+    bb_schema autosql = Ok (stored_autosql autosql, fc) /\ bb_collect o sizes input = Ok (ids, outs)
+    /\ inc_from 0 kept /\ Nlen kept <= 10
+    /\ Forall (level_runs fp o outs) kept
+    /\ (ubuf = 0 <-> o_compress o = false) /\ ubuf < W32
+    /\ decode bs (zlib_inflate_at bs) = Some (bed_content_of_z fp o sizes input (stored_autosql autosql) fc ids outs ubuf kept).
+Proof. exact bb_decode_encode_zlib_stored_multipass. Qed.
+Print Assumptions C09_bb_decode_encode_zlib_stored_multipass.
+
+(* Non-vacuity: the input of C09_bb_whole_file_example written COMPRESSED (toy compressor; zlib_store) meets every
+   hypothesis of C09_bb_decode_encode_compressed(_multipass) / C09_bb_decode_encode_zlib_stored, and the decoder returns
+   what the theorems say: buffer size 64 (a zoom section of two records), two levels, blocks of 2, 1, 1 entries. *)
+Definition c09_bbz_opts : opts :=
+  {| o_compress := true; o_ips := 2; o_bs := 2; o_izoom := 10; o_maxzooms := 10; o_manual := Some [5; 40]; o_sort_all := true |}.
+Lemma c09_bbz_fits : ubuf_fits_dec c09_bbz_opts c09_bb_input.
+Proof.
+  intros _. split; [|vm_compute; reflexivity].
+  apply (BedFileZ.blocks_fit_of_bounds c09_bbz_opts c09_bb_input 3); [cbn; lia|cbn; unfold RTreeCodec.U32; lia|].
+  unfold c09_bb_input. repeat (constructor; [cbn; lia|]). constructor.
+Qed.
+Lemma c09_bbz_hyps bs : Nlen bs < W64 -> bed_hyps c09_bbz_opts c09_bb_sizes c09_bb_input bs.
+Proof.
+  intros Hs. unfold bed_hyps. split; [cbn; lia|]. split; [cbn; lia|]. split; [vm_compute; reflexivity|]. split.
+  - unfold bed_input_ok, c09_bb_input, name_ok, bentry_ok, W32.
+    repeat (constructor; [cbn [fst snd e_start e_end e_rest]; repeat split; try discriminate; try lia; repeat (constructor; try lia; try discriminate)|]).
+    constructor.
+  - split; [|exact Hs]. unfold c09_bb_sizes, W32. repeat (constructor; [cbn [snd]; lia|]). constructor.
+Qed.
+Example C09_bb_compressed_file_example : exists bs bs2 fc ids outs,
+  bb_write_z toy_compress ieee c09_bbz_opts c09_bb_sizes None c09_bb_input = Ok bs
+  /\ bb_write_multipass_z toy_compress ieee c09_bbz_opts c09_bb_sizes None c09_bb_input = Ok bs2
+  /\ bb_collect c09_bbz_opts c09_bb_sizes c09_bb_input = Ok (ids, outs)
+  /\ bed_hyps c09_bbz_opts c09_bb_sizes c09_bb_input bs /\ bed_hyps c09_bbz_opts c09_bb_sizes c09_bb_input bs2
+  /\ Forall (fun z => z < W32) (zoom_sizes_single c09_bbz_opts) /\ manual_u32 c09_bbz_opts /\ o_sort_all c09_bbz_opts = true
+  /\ (forall b, toy_compress b <> []) /\ inflate_ok toy_compress bs (toy_inflate bs) /\ inflate_ok toy_compress bs2 (toy_inflate bs2)
+  /\ ubuf_fits_dec c09_bbz_opts c09_bb_input
+  /\ decode bs (toy_inflate bs) = Some (bed_content_of_z ieee c09_bbz_opts c09_bb_sizes c09_bb_input (stored_autosql None) fc ids outs 64 [5; 40])
+  /\ decode bs2 (toy_inflate bs2) = Some (bed_content_of_z ieee c09_bbz_opts c09_bb_sizes c09_bb_input (stored_autosql None) fc ids outs 64 [5; 40])
+  /\ decode bs (fun _ _ => None) = None
+  /\ Nlen bs = 3290 /\ bb_write ieee c09_bb_opts c09_bb_sizes None c09_bb_input <> Ok bs.
+Proof.
+  do 5 eexists. split; [vm_compute; reflexivity|]. split; [vm_compute; reflexivity|]. split; [vm_compute; reflexivity|].
+  split; [apply c09_bbz_hyps; vm_compute; reflexivity|]. split; [apply c09_bbz_hyps; vm_compute; reflexivity|].
+  split; [apply Forall_forall; intros z Hz; vm_compute in Hz; unfold W32; destruct Hz as [<-|[<-|[]]]; lia|].
+  split; [intros zs E; injection E as <-; unfold W32; repeat (constructor; [lia|]); constructor|].
+  split; [reflexivity|]. split; [discriminate|].
+  split; [intros off b H; unfold toy_inflate; rewrite (has_at_slice_N _ off (toy_compress b) _ H eq_refl); reflexivity|].
+  split; [intros off b H; unfold toy_inflate; rewrite (has_at_slice_N _ off (toy_compress b) _ H eq_refl); reflexivity|].
+  split; [exact c09_bbz_fits|].
+  split; [vm_compute; reflexivity|]. split; [vm_compute; reflexivity|]. split; [vm_compute; reflexivity|].
+  split; [vm_compute; reflexivity|]. vm_compute. discriminate.
+Qed.
+
+Example C09_bb_zlib_stored_file_example : exists bs fc ids outs,
+  bb_write_z zlib_store ieee c09_bbz_opts c09_bb_sizes None c09_bb_input = Ok bs
+  /\ bb_collect c09_bbz_opts c09_bb_sizes c09_bb_input = Ok (ids, outs)
+  /\ bed_hyps c09_bbz_opts c09_bb_sizes c09_bb_input bs
+  /\ Forall (fun z => z < W32) (zoom_sizes_single c09_bbz_opts) /\ o_sort_all c09_bbz_opts = true
+  /\ ubuf_fits_dec c09_bbz_opts c09_bb_input
+  /\ decode bs (zlib_inflate_at bs) = Some (bed_content_of_z ieee c09_bbz_opts c09_bb_sizes c09_bb_input (stored_autosql None) fc ids outs 64 [5; 40])
+  /\ map (fun r => (fr_chrom r, fr_start r, fr_end r, fr_rest r)) (brecs_of outs)
+     = [(0, 0, 12, [120; 9; 49]); (0, 5, 9, []); (0, 5, 130, [121]); (1, 3, 4, [122])]
+  /\ Nlen bs = 3497.
+Proof.
+  do 4 eexists. split; [vm_compute; reflexivity|]. split; [vm_compute; reflexivity|].
+  split; [apply c09_bbz_hyps; vm_compute; reflexivity|].
+  split; [apply Forall_forall; intros z Hz; vm_compute in Hz; unfold W32; destruct Hz as [<-|[<-|[]]]; lia|].
+  split; [reflexivity|]. split; [exact c09_bbz_fits|].
+  split; [vm_compute; reflexivity|]. split; vm_compute; reflexivity.
+Qed.
